@@ -219,3 +219,11 @@ Proof.
   - eexists. split; vm_compute; reflexivity.
 Qed.
 Print Assumptions C03_crypto_example.
+
+(** The precondition off + n < MaxByteCount of the sorter theorems is necessary: a frame that
+    ends exactly at MaxByteCount drives the model to its Bug value — in the code findEndGap
+    runs off the gap list and panics ("no gap found"; reproduced on the implementation,
+    unreachable behind flow control and the crypto cap). *)
+Example C03_sorter_end_at_max_is_bug : snd (Push init [7] (MaxBC - 1) None) = Bug.
+Proof. vm_compute. reflexivity. Qed.
+Print Assumptions C03_sorter_end_at_max_is_bug.
